@@ -294,7 +294,7 @@ fn judge(o: &Out, inj: Inject) -> Vec<(&'static str, String)> {
 pub fn replay(w: &Value) -> Result<String, String> {
   let pair = [Pair::PushPull, Pair::DealerRouter, Pair::ReqRep, Pair::PubSub].into_iter().find(|p| w["pair"] == format!("{:?}", p)).ok_or("unknown pair")?;
   let inj = [Inject::Close(0), Inject::Close(1), Inject::Term].into_iter().find(|p| w["inject"] == format!("{:?}", p)).ok_or("unknown inject")?;
-  let script = scripts(4).into_iter().find(|s| w["script"] == format!("{:?}", s)).ok_or("unknown script")?;
+  let script = scripts(6).into_iter().find(|s| w["script"] == format!("{:?}", s)).ok_or("unknown script")?;
   let r = run_script(pair, &script, inj);
   if !r.panics.is_empty() {
     return Err(format!("panics: {:?}", r.panics));
@@ -310,7 +310,7 @@ pub fn replay(w: &Value) -> Result<String, String> {
 
 pub fn add_world_subs(rep: &mut Report, tier: Tier) {
   rep.assume("E3: close()/term() are injected at quiescence points after every prefix of the scripts, and while recv()/send() calls are blocked in their own tasks; term/close must return within 5 s virtual (well inside Context::term's hidden 10 s straggler timeout, which would otherwise mask a hang)");
-  let depth = tier.pick(3, 4);
+  let depth = tier.pick(3, 6);
   let sc = scripts(depth);
   let mut work = vec![];
   for pair in [Pair::PushPull, Pair::DealerRouter, Pair::ReqRep, Pair::PubSub] {
